@@ -315,3 +315,150 @@ func verif_contract_fastlog_Line_ByteArray(l *Line, name string, value []byte) *
 	vEnsures(r == l && 0 <= l.index && l.index <= bufSize)
 	return r
 }
+
+// ---------- IP rendering ----------
+
+// net.IP.To4 returns nil or a 4-byte view (net package, trusted).
+func verif_extern_net_IP_To4(ip net.IP) net.IP {
+	r := ip.To4()
+	vAssume(r == nil || len(r) == 4)
+	return r
+}
+
+func verif_unroll_fastlog_Line_appendIP6_1() int { return 9 }
+func verif_unroll_fastlog_Line_appendIP6_2() int { return 9 }
+
+// loop 3 prints the groups: each iteration appends at most 5 characters
+func verif_inv_fastlog_Line_appendIP6_3(l *Line, i int) bool {
+	return l != nil && 0 <= i && i <= 8 && vAtEntry(l.index) <= l.index && l.index <= vAtEntry(l.index)+5*i
+}
+func verif_dec_fastlog_Line_appendIP6_3(i int) int { return 8 - i }
+
+// spec_zero_run: [start, end] (inclusive) of the longest run of two or more
+// zero groups, leftmost on ties; (-1, -1) when there is none (RFC 5952 4.2).
+func spec_group_zero(ip net.IP, g int) bool { return ip[2*g] == 0 && ip[2*g+1] == 0 }
+
+func spec_run_len(ip net.IP, g int) int {
+	n := 0
+	if g < 8 && spec_group_zero(ip, g) {
+		n = 1
+		if g+1 < 8 && spec_group_zero(ip, g+1) {
+			n = 2
+			if g+2 < 8 && spec_group_zero(ip, g+2) {
+				n = 3
+				if g+3 < 8 && spec_group_zero(ip, g+3) {
+					n = 4
+					if g+4 < 8 && spec_group_zero(ip, g+4) {
+						n = 5
+						if g+5 < 8 && spec_group_zero(ip, g+5) {
+							n = 6
+							if g+6 < 8 && spec_group_zero(ip, g+6) {
+								n = 7
+								if g+7 < 8 && spec_group_zero(ip, g+7) {
+									n = 8
+								}
+							}
+						}
+					}
+				}
+			}
+		}
+	}
+	return n
+}
+
+func spec_best_run(ip net.IP) (int, int) {
+	best, bestLen := -1, 1
+	if n := spec_run_len(ip, 0); n > bestLen {
+		best, bestLen = 0, n
+	}
+	if n := spec_run_len(ip, 1); n > bestLen {
+		best, bestLen = 1, n
+	}
+	if n := spec_run_len(ip, 2); n > bestLen {
+		best, bestLen = 2, n
+	}
+	if n := spec_run_len(ip, 3); n > bestLen {
+		best, bestLen = 3, n
+	}
+	if n := spec_run_len(ip, 4); n > bestLen {
+		best, bestLen = 4, n
+	}
+	if n := spec_run_len(ip, 5); n > bestLen {
+		best, bestLen = 5, n
+	}
+	if n := spec_run_len(ip, 6); n > bestLen {
+		best, bestLen = 6, n
+	}
+	return best, bestLen
+}
+
+// spec_ip6_textlen: length of the RFC 5952 text of ip.
+func spec_hexlen(hi, lo byte) int {
+	switch {
+	case hi>>4 != 0:
+		return 4
+	case hi != 0:
+		return 3
+	case lo>>4 != 0:
+		return 2
+	}
+	return 1
+}
+
+//verif:props C20
+func verif_contract_fastlog_Line_appendIP6(l *Line, ip net.IP) {
+	vRequires(spec_line_wf(l) && l.index+40 <= bufSize)
+	vRequires(!vSameRegion(ip, l.buffer[:]))
+	old := l.index
+	vModifiesField(l, "index")
+	vModifiesBytes(l.buffer[:])
+	l.appendIP6(ip)
+	vEnsures(old-1 <= l.index && l.index <= old+40)
+	if len(ip) == 16 {
+		vEnsures(l.index <= old+40)
+	} else {
+		vEnsures(l.index == old+3 && l.buffer[old] == 'n' && l.buffer[old+1] == 'i' && l.buffer[old+2] == 'l')
+	}
+}
+
+func verif_inv_fastlog_Line_IPArray_1(l *Line, rangeindex int, value []net.IP) bool {
+	return l != nil && vForall(0, len(value), func(i int) bool { return !vSameRegion(value[i], l.buffer[:]) }) && -1 <= rangeindex && rangeindex < len(value) && 0 <= l.index && l.index <= bufSize
+}
+func verif_dec_fastlog_Line_IPArray_1(rangeindex int, value []net.IP) int {
+	return len(value) - rangeindex
+}
+
+// IPArray: for ANY number of addresses, no panic and the index stays inside the buffer.
+//
+//verif:props C20
+func verif_contract_fastlog_Line_IPArray(l *Line, name string, value []net.IP) *Line {
+	vRequires(spec_line_wf(l))
+	vRequires(vForall(0, len(value), func(i int) bool { return !vSameRegion(value[i], l.buffer[:]) }))
+	vCanary()
+	vModifiesField(l, "index")
+	vModifiesBytes(l.buffer[:])
+	r := l.IPArray(name, value)
+	vEnsures(r == l && 0 <= l.index && l.index <= bufSize)
+	return r
+}
+
+func verif_inv_fastlog_Line_StringArray_1(l *Line, rangeindex int, value []string) bool {
+	return l != nil && -1 <= rangeindex && rangeindex < len(value) && 1 <= l.index && l.index <= bufSize
+}
+func verif_dec_fastlog_Line_StringArray_1(rangeindex int, value []string) int {
+	return len(value) - rangeindex
+}
+
+// StringArray: for ANY strings, no panic and the index stays inside the buffer.
+//
+//verif:props C20
+func verif_contract_fastlog_Line_StringArray(l *Line, name string, value []string) *Line {
+	vRequires(spec_line_wf(l))
+	vCanary()
+	vModifiesField(l, "index")
+	vModifiesBytes(l.buffer[:])
+	r := l.StringArray(name, value)
+	vEnsures(r == l && 0 <= l.index && l.index <= bufSize)
+	return r
+}
